@@ -556,12 +556,14 @@ pub async fn scenario(seed: u64, opts: &LifeOpts) -> (u64, u64) {
         let mut late: Vec<LOp> = Vec::new();
         for (pi, p) in ports.iter().enumerate() {
             if let Some(tx) = p.tx.clone() {
+                // a sender that an earlier, still pending operation is using (those are not polled any more) is skipped:
+                // a late send would only wait for the harness-side lock of that sender
+                let Ok(mut g) = tx.try_lock_owned() else { continue };
                 let id = next_op;
                 next_op += 1;
                 tr(json!({"ev": "api_start", "op": id, "ep": p.ep, "kind": "send", "port": p32(p.local), "data": [1, 2, 3], "late": true}));
                 late.push(LOp {
                     op: Op::new(id, p.ep, async move {
-                        let mut g = tx.lock_owned().await;
                         R::Send(g.send(Bytes::from_static(&[1, 2, 3])).await.map_err(|e| send_err_class(&e)))
                     }),
                     kind: K::Send,
